@@ -209,6 +209,8 @@ struct TypeProbe<T> {
     ops: Vec<(&'static str, fn(&mut T))>,
 }
 
+const QUERY_TYPES: [&str; 1] = ["WindowStatement"];
+
 fn probe_type<T: Clone + Debug>(rep: &Report, tp: &TypeProbe<T>, max_subset: usize) -> u64 {
     let n = tp.ops.len();
     let mut cases = 0u64;
@@ -246,6 +248,23 @@ fn probe_type<T: Clone + Debug>(rep: &Report, tp: &TypeProbe<T>, max_subset: usi
                 report("take-loses-state", format!("take() returned {:?}\n but the value was {:?}", taken, before));
             } else if (tp.render)(&taken) != (tp.render)(&before) {
                 report("take-renders-differently", format!("{:?} vs {:?}", (tp.render)(&taken), (tp.render)(&before)));
+            }
+            // query statements (src/query: SelectStatement - explored as a state machine - and WindowStatement): what is
+            // left behind equals a newly constructed value, also after every further call
+            if QUERY_TYPES.contains(&tp.name) {
+                let fresh = (tp.new)();
+                if format!("{:?}", src) != format!("{:?}", fresh) {
+                    report("take-leaves-state-behind", format!("after take() the builder is {:?}\n a new one is {:?}", src, fresh));
+                } else {
+                    for (nm, op) in &tp.ops {
+                        let (mut l, mut f) = (src.clone(), (tp.new)());
+                        let _ = catch(|| op(&mut l));
+                        let _ = catch(|| op(&mut f));
+                        if format!("{:?}", l) != format!("{:?}", f) || (tp.render)(&l) != (tp.render)(&f) {
+                            report("take-leaves-state-behind", format!("after take() and {nm} the builder is {:?}\n a new one after {nm} is {:?}", l, f));
+                        }
+                    }
+                }
             }
         }
         // clone independence under every op
